@@ -11,7 +11,7 @@ THEOREMS = [
     "C06.order_irrefl", "C06.order_asymm", "C06.order_trans", "C06.order_weak", "C06.order_total",
     "C06.order_numeric", "C06.order_num_lt_word", "C06.order_release_lt_master", "C06.order_sorted",
     "C06.report_branches", "C06.no_nonmatching", "C06.only_matching", "C06.under_minimal_build",
-    "C06.exactly_once", "C06.not_merged_exact", "C06.at_most_once",
+    "C06.exactly_once", "C06.not_merged_exact", "C06.at_most_once", "C06.report_total", "C06.report_total_single",
 ]
 TEXT = "BUG-7"
 RULE = ("random commit graphs (6-16 commits, 8% extra roots, 30% merges incl. octopus, random parent order, 30% build tags, "
@@ -60,7 +60,7 @@ def impl(case):
             continue
         try:
             h = G.dec_hist(*args)
-            out.append(_report_text(run_real(h, noise=case.get("meta", {}).get("noise", False))))
+            out.append(_report_text(G.with_timeout(2, run_real, h, case.get("meta", {}).get("noise", False))))
         except Exception as e:
             out.append("err " + type(e).__name__)
     return out
@@ -393,8 +393,8 @@ LEVEL_NOTE = ("Trusted: Lean kernel (axioms propext, Classical.choice, Quot.soun
               "(random DAGs 4-30 commits, 1-5 refs, exhaustive <=4 commits x 2 branches in thorough). Not modelled: commit times "
               "(the property quantifies over histories inside the 30-day window), tag-name parsing (build numbers are passed to "
               "the model as numbers; the real code parses the tag strings, incl. master-style tags completed from VERSION). The "
-              "theorems assume Hist.Topo (parents have smaller ids) and are conditional on the model returning a report (no "
-              "totality theorem); the model never failed on 480k generated histories.")
+              "theorems assume Hist.Topo (parents have smaller ids); report_total shows that the model always returns a report "
+              "when the refs point to existing commits.")
 TECHNIQUE = ("Lean 4: invariants of the two nested DFS (well-formedness, frontier = nearest report ancestors, coverage of "
              "rcommits_bparents) proved through generic induction principles; translator for constants; correspondence + "
              "ancestor-set oracle on random and exhaustive small histories")
